@@ -1981,7 +1981,11 @@ class UserActions(object):
     # We don't set the values of formula columns, they should just recalculate themselves
     if not col.is_formula():
       row_ids, values = col.rename_choices(renames)
-      values = [encode_object(v) for v in values]
+      # rename_choices() scans the column's whole storage, including slot 0 (the empty record) and the
+      # slots of removed rows, which hold the default value; only actual records can be updated.
+      pairs = [(r, v) for (r, v) in zip(row_ids, values) if r in table.row_ids]
+      row_ids = [r for (r, _) in pairs]
+      values = [encode_object(v) for (_, v) in pairs]
       self.BulkUpdateRecord(table_id, row_ids, {col_id: values})
 
     # Helper to rename only string values
